@@ -274,3 +274,37 @@ pub fn visible_text(dom: &Dom, skip: &dyn Fn(usize) -> bool) -> String {
     go(dom, 0, &mut out, skip);
     out
 }
+
+/// Visible text of one subtree (same rules as `visible_text`).
+pub fn visible_text_of(dom: &Dom, root: usize) -> String {
+    fn go(d: &Dom, i: usize, out: &mut String) {
+        match &d.nodes[i].data {
+            Data::Text(t) => out.push_str(t),
+            Data::Elem(l, html, at) => {
+                if *html && IGNORED.contains(&l.as_str()) {
+                    return;
+                }
+                if *html && l == "img" {
+                    let src = at.iter().find(|(k, _)| k == "src").map(|(_, v)| v.as_str()).unwrap_or("");
+                    let alt = at.iter().find(|(k, _)| k == "alt").map(|(_, v)| v.as_str()).unwrap_or("");
+                    if !src.is_empty() {
+                        out.push_str(alt);
+                    }
+                    return;
+                }
+                for &k in &d.nodes[i].kids {
+                    go(d, k, out);
+                }
+            }
+            Data::Doc => {
+                for &k in &d.nodes[i].kids {
+                    go(d, k, out);
+                }
+            }
+            _ => {}
+        }
+    }
+    let mut out = String::new();
+    go(dom, root, &mut out);
+    out
+}
